@@ -1,9 +1,114 @@
 // C10 five mode stream objects equal NIST SP 800-38A; decryptors invert encryptors.
 #include "../harness.h"
 #include "../gen.h"
+#include <thread>
+#include <atomic>
+
+// Several stream objects made by ONE factory, each used by its own thread at the same time - which is how the
+// pipeline uses them (prepare_AES makes T objects from one factory, run_multicry gives one to each worker). Each
+// thread encrypts its own data and decrypts the result; the outputs are compared with the reference afterwards.
+// Under ThreadSanitizer (variant tsan) state shared between the objects shows as a data race whatever the timing.
+static Verdict run_c10_threads(const Case &c)
+{
+  static const char *mn[5] = {"ECB", "CBC", "CTR", "CFB", "OFB"};
+  int mode = (int)c.geti("mode"), nthreads = (int)c.geti("n", 4);
+  size_t nb = (size_t)c.geti("blocks", 200);
+  uint64_t seed = (uint64_t)strtoull(c.get("pseed", "0").c_str(), NULL, 10);
+  bytes key = c.getb("key"), iv = c.getb("iv");
+  key.resize(16);
+  iv.resize(16);
+  Verdict v;
+  v.nontrivial = true;
+  v.weight = (uint64_t)nthreads;
+  v.distinct = fnv64(c.text());
+  v.classes.push_back("objects_of_one_factory_on_several_threads");
+  v.classes.push_back(mn[mode % 5]);
+  ChildResult r = run_in_child([&]() {
+    std::vector<bytes> in((size_t)nthreads), enc((size_t)nthreads), dec((size_t)nthreads);
+    for (int t = 0; t < nthreads; t++)
+      in[(size_t)t] = expand(seed * 131 + (uint64_t)t, nb * 16, 0);
+    void *f = wapi::factory_new(key.data(), iv.data());
+    std::vector<void *> eo, dobj;
+    for (int t = 0; t < nthreads; t++)
+    {
+      eo.push_back(wapi::factory_make(f, true, mode));
+      dobj.push_back(wapi::factory_make(f, false, mode));
+    }
+    std::atomic<int> ready{0};
+    std::vector<std::thread> ts;
+    for (int t = 0; t < nthreads; t++)
+      ts.emplace_back([&, t] {
+        ready++;
+        while (ready.load() < nthreads)
+        {
+        }
+        bytes e = in[(size_t)t];
+        for (size_t i = 0; i < nb && eo[(size_t)t]; i++)
+          wapi::mode_run_raw(eo[(size_t)t], e.data() + 16 * i);
+        bytes d = e;
+        for (size_t i = 0; i < nb && dobj[(size_t)t]; i++)
+          wapi::mode_run_raw(dobj[(size_t)t], d.data() + 16 * i);
+        enc[(size_t)t] = e;
+        dec[(size_t)t] = d;
+      });
+    for (auto &t : ts)
+      t.join();
+    std::string msg;
+    for (int t = 0; t < nthreads && msg.empty(); t++)
+    {
+      bytes want = ref::mode_encrypt(mode, key.data(), iv.data(), in[(size_t)t]);
+      size_t bad = 0, first = 0;
+      for (size_t i = 0; i < nb; i++)
+        if (memcmp(want.data() + 16 * i, enc[(size_t)t].data() + 16 * i, 16))
+        {
+          if (!bad)
+            first = i;
+          bad++;
+        }
+      if (bad)
+        msg = "thread " + std::to_string(t) + ": " + std::to_string(bad) + " of " + std::to_string(nb) + " encrypted blocks differ from SP 800-38A (first: block " + std::to_string(first) + ")";
+      else if (dec[(size_t)t] != in[(size_t)t])
+        msg = "thread " + std::to_string(t) + ": the decryptor did not restore the input";
+    }
+    Ser s;
+    s.str(msg);
+    return s.b;
+  });
+  auto ctxt = [&]() { return " [" + std::string(mn[mode % 5]) + ", " + std::to_string(nthreads) + " encryptors and decryptors made by one factory, one per thread, " + std::to_string(nb) + " blocks each, key=" + hex(key) + " iv=" + hex(iv) + "]"; };
+  if (r.status == CH_EXIT && r.code == 97)
+  {
+    size_t p1 = r.detail.find("WARNING:");
+    std::string first = r.detail.substr(p1 == std::string::npos ? 0 : p1, 600);
+    for (auto &ch : first)
+      if (ch == '\n')
+        ch = '|';
+    if (r.detail.find("/kernel/") == std::string::npos)
+    {
+      Verdict f = Verdict::fail("harness: ThreadSanitizer report without a frame in wencry: " + first);
+      f.infra = true;
+      return f;
+    }
+    Verdict f = Verdict::fail("ThreadSanitizer: stream objects made by one factory share state that is written while another thread uses it: " + first + ctxt());
+    f.nontrivial = true;
+    return f;
+  }
+  if (r.status != CH_OK)
+    return Verdict::fail("concurrent use of stream objects from one factory did not end normally: " + r.describe() + ctxt());
+  De d(r.payload);
+  std::string m = d.str();
+  if (!m.empty())
+  {
+    Verdict f = Verdict::fail(m + ctxt());
+    f.nontrivial = true;
+    return f;
+  }
+  return v;
+}
 
 static Verdict run_c10(const Case &c)
 {
+  if (c.get("kind", "") == "threads")
+    return run_c10_threads(c);
   int mode = (int)c.geti("mode");
   bytes key = c.getb("key"), iv = c.getb("iv");
   key.resize(16);
@@ -182,6 +287,24 @@ static void fixed_c10(Ctx &ctx)
 {
   const Prop *p = find_prop("C10");
   uint64_t i = 0;
+  // stream objects of one factory on several threads at once (with --mode threads, the ThreadSanitizer run, only these)
+  for (int rep = 0; rep < (ctx.mode == "threads" ? 4 : 2); rep++)
+    for (int mode = 0; mode < 5; mode++)
+    {
+      if (!mine(ctx, i++))
+        continue;
+      Case c;
+      c.set("kind", "threads");
+      c.seti("mode", mode);
+      c.seti("n", rep % 2 ? 2 : 4);
+      c.seti("blocks", ctx.mode == "threads" ? 64 : 4000);
+      c.setb("key", expand(ctx.seed * 77 + (uint64_t)rep, 16, 0));
+      c.setb("iv", expand(ctx.seed * 79 + (uint64_t)mode, 16, 0));
+      c.set("pseed", std::to_string(ctx.seed * 1000 + (uint64_t)(rep * 5 + mode)));
+      eval_fixed(*p, ctx, c);
+    }
+  if (ctx.mode == "threads")
+    return;
   // SP 800-38A vectors' key/IV, and counter blocks whose last j bytes are 0xFF for every j (carry chains)
   for (int mode = 0; mode < 5; mode++)
     for (int j = 0; j <= 16; j++)
